@@ -69,13 +69,13 @@ fn ck_map_keys_via(n: usize, kbuf: [u8; 4], args_variant: bool) {
     }
     assert!(values.shape[0] == survivors && values.data.len() == survivors && mk.len == survivors && mk.indices.len() == survivors);
 }
-//@ id=C16.e3.mapbuild.map.len3 props=C16,C05,C09 level=bounded tier=quick budget=900 bound="3 scalar keys in all 5 duplicate patterns (010, 000, 001, 011, 012), symbolic values; both through Array::map and through the block of Array::map_args" desc="Array::map with duplicate keys: the latest value of each key wins, the surviving rows keep their order, every key points at its own row, the table describes exactly the rows that are left (key table modelled by the contract of MapKeys::insert)"
+//@ id=C16.e3.mapbuild.map.len3 props=C16,C09 level=bounded tier=quick budget=900 bound="3 scalar keys in all 5 duplicate patterns (010, 000, 001, 011, 012), symbolic values; both through Array::map and through the block of Array::map_args" desc="Array::map with duplicate keys: the latest value of each key wins, the surviving rows keep their order, every key points at its own row, the table describes exactly the rows that are left (key table modelled by the contract of MapKeys::insert)"
 #[kani::proof]
 #[kani::unwind(10)]
 fn h_map_3() {
     ck_map_patterns3();
 }
-//@ id=C16.e3.mapbuild.map.len4 props=C16,C05,C09 level=bounded tier=quick budget=900 bound="4 scalar keys in 8 fixed duplicate patterns (0110, 0101, 0011, 0120, 0000, 0121, 0123, 1001), symbolic values; both through Array::map and through the block of Array::map_args" desc="the same for four rows (two different keys can be replaced, in either order)"
+//@ id=C16.e3.mapbuild.map.len4 props=C16,C09 level=bounded tier=quick budget=900 bound="4 scalar keys in 8 fixed duplicate patterns (0110, 0101, 0011, 0120, 0000, 0121, 0123, 1001), symbolic values; both through Array::map and through the block of Array::map_args" desc="the same for four rows (two different keys can be replaced, in either order)"
 #[kani::proof]
 #[kani::unwind(10)]
 fn h_map_4() {
